@@ -21,7 +21,7 @@ BEADS_FAULTS = {'file_not_found': 'not found', 'too_few_events': 'lower than 400
 FAULT_OF_MESSAGE = [('not found', 'fileNotFound'), ('lower than 400', 'tooFewEvents'), ('gate fraction', 'gateFraction'), ('not recognized', 'unitsNotRecognized'),
                     ('not available', 'mefNotAvailable'), ('no standard curve', 'noCurveForChannel'), ('Instruments for', 'otherInstrument'),
                     ('Amplification type', 'amplificationType'), ('Detector voltage', 'detectorVoltage')]
-FILES = {'s0.fcs': 600, 's1.fcs': 600, 'nope.fcs': None, 'small.fcs': 120, 'volt.fcs': 600, 'volt0.fcs': 600, 'lin.fcs': 600, 'n380.fcs': 380, 'n399.fcs': 399, 'n400.fcs': 400, 'linf.fcs': 600}
+FILES = {'s0.fcs': 600, 's1.fcs': 600, 'nope.fcs': None, 'small.fcs': 120, 'volt.fcs': 600, 'volt0.fcs': 600, 'lin.fcs': 600, 'n380.fcs': 380, 'n399.fcs': 399, 'n400.fcs': 400, 'linf.fcs': 600, 't0.fcs': 600, 't1.fcs': 600}
 UNIT_CELLS = [None, None, 'MEF', 'mef', 'Mef', 'a.u.', 'AU', 'RFI', 'rfi', 'Channel', 'furlongs', 'MEFL', '', 'a.u', '.au', 'u', 'rf', 'me', 'hannel', ' ']
 
 
@@ -60,6 +60,8 @@ class Setup:
         ex.write_fcs('n380.fcs', 'FC001', n=380, seed=seed + 23)        # between the gate's own limit (350) and the documented 400
         ex.write_fcs('n399.fcs', 'FC001', n=399, seed=seed + 24)
         ex.write_fcs('n400.fcs', 'FC001', n=400, seed=seed + 26)        # exactly the documented minimum: a healthy row
+        ex.write_fcs('t0.fcs', 'FC002', n=600, voltage=450, seed=seed + 28)        # samples of the second instrument
+        ex.write_fcs('t1.fcs', 'FC002', n=600, voltage=450, seed=seed + 29)
         ex.datatype = 'F'
         ex.write_fcs('linf.fcs', 'FC001', n=600, voltage=450, seed=seed + 27)        # a floating-point file (linear amplifiers) against log-amplified beads
         ex.datatype = 'I'
@@ -196,6 +198,11 @@ class Prop(common.PropertyCheck):
         yield {'k': 'combo', 'rows': [first, dict(first, file='volt0.fcs'), dict(first, file='volt.fcs'), dict(first, file='volt0.fcs', units={'FL1': 'RFI', 'FL2': None, 'FL3': None})]}
         yield {'k': 'combo', 'rows': [first, dict(first, file='linf.fcs'), dict(first, file='linf.fcs', units={'FL1': 'a.u.', 'FL2': 'RFI', 'FL3': None}), dict(first, file='lin.fcs')]}
         yield {'k': 'combo', 'bare_table': True, 'rows': [first, dict(first, beads='BFAIL'), dict(first, beads='BNOMEF'), dict(first, file='volt.fcs'), first]}
+        # rows of two instruments in alternation (results keep the order of the table), and unit cells holding blanks only
+        other = {'file': 't0.fcs', 'iid': 'FC002', 'beads': 'B1', 'units': {'FL1': None, 'FL2': None, 'FL3': None}, 'gate': 'ok'}
+        yield {'k': 'combo', 'rows': [first, other, dict(first, file='s1.fcs'), dict(other, file='t1.fcs'), dict(first, file='nope.fcs'), other]}
+        yield {'k': 'combo', 'rows': [other, first, dict(first, units={'FL1': '   ', 'FL2': None, 'FL3': None}), dict(other, file='t1.fcs'),
+                                      dict(first, units={'FL1': 'RFI', 'FL2': ' \t ', 'FL3': None}), first]}
         # without the optional beads table
         yield {'k': 'combo', 'no_table': True, 'rows': [first, dict(first, units={'FL1': None, 'FL2': None, 'FL3': 'MEF'}), dict(first, beads='BFAIL'), first,
                                                         dict(first, units={'FL1': 'MEF', 'FL2': 'MEF', 'FL3': 'mef'}), dict(first, file='nope.fcs')]}
@@ -299,7 +306,7 @@ class Prop(common.PropertyCheck):
                                         'filled': [c for c in percol if not (pd.isnull(st.loc[rid, c]) or st.loc[rid, c] == '')]})
                 return out
             if case['k'] == 'combo':
-                rows = [excelgen.sample_row('R%d' % i, 'FC001', r['file'], {c: u for c, u in r['units'].items() if u is not None}, r['beads'],
+                rows = [excelgen.sample_row('R%d' % i, r.get('iid', 'FC001'), r['file'], {c: u for c, u in r['units'].items() if u is not None}, r['beads'],
                                             gate_fraction=0.85 if r['gate'] == 'ok' else 1.5) for i, r in enumerate(case['rows'])]
                 st, res = s.process(rows, no_table=bool(case.get('no_table')), bare_table=bool(case.get('bare_table')))
                 out = {'ids': list(res.keys()),
